@@ -5,6 +5,7 @@ package main
 import (
 	"verif/harness/fw"
 	_ "verif/props/c06"
+	_ "verif/props/c07"
 	_ "verif/props/c14"
 	_ "verif/props/selftest"
 )
